@@ -23,28 +23,65 @@ def showOut : Out → String
   | .done => "none"
   | .delay d => "some:" ++ showDur d
 
+/-! arm tags (GUIDE "Arm coverage") -/
+
+def tagged (r : String) (arms : List String) : String :=
+  if arms.isEmpty then r else r ++ " @@ " ++ ",".intercalate arms
+
+/-- branches and boundaries of one `next()` call in state `s` -/
+def nextArms (s : Backoff) : List String :=
+  let lim : List String := match s.maxRetries with
+    | none => ["next-unlimited"]
+    | some m =>
+      if m = s.count then ["next-exhausted-eq"]
+      else if m < s.count then ["next-exhausted-gt"]
+      else if s.count + 1 = m then ["next-limited-last"] else ["next-limited-yield"]
+  if exhausted s then lim else
+  let d := s.cur
+  let total := d.nanos * 2
+  let mul : List String :=
+    (if total / NANOS = 0 then ["mul-nocarry"] else ["mul-carry"]) ++
+    (if d.secs * 2 ≥ U64 then ["mul-secs-overflow"]
+     else if d.secs * 2 + total / NANOS ≥ U64 then ["mul-add-overflow"] else ["mul-exact"]) ++
+    (if d.secs = 0 ∧ d.nanos = 0 then ["mul-zero"] else [])
+  let d2 := d.satMul2
+  let m := s.maxSleep
+  let cmp : List String :=
+    if m.secs < d2.secs then ["min-secs-lt"]        -- max smaller: capped
+    else if d2.secs < m.secs then ["min-secs-gt"]   -- double smaller: kept
+    else if m.nanos < d2.nanos then ["min-nanos-lt"]
+    else if d2.nanos < m.nanos then ["min-nanos-gt"] else ["min-equal"]
+  let first : List String :=
+    (if s.count = 0 then ["next-first"] else []) ++ (if m.gt d then [] else if d.gt m then ["cur-above-max"] else ["cur-eq-max"])
+  lim ++ mul ++ cmp ++ first
+
 def dstep (s : Backoff) (toks : List String) : Backoff × String :=
   match toks with
   | ["reset", "infinity", ms, mn, is, inn] =>
     match parseDur? ms mn, parseDur? is inn with
     | some m, some i =>
       let b := init (policyInfinity m i)
-      (b, "ok " ++ showState b)
+      (b, tagged ("ok " ++ showState b) ["reset-infinity"])
     | _, _ => (s, "bad-op")
   | ["reset", ms, mn, lim, is, inn] =>
     match parseDur? ms mn, parseLimit? lim, parseDur? is inn with
     | some m, some l, some i =>
       let b := init { maxSleep := m, limit := l, initial := i }
-      (b, "ok " ++ showState b)
+      (b, tagged ("ok " ++ showState b)
+        ["reset-policy", match l with | none => "limit-none" | some 0 => "limit-0" | some 1 => "limit-1"
+                                      | some n => if n + 1 = U32 then "limit-u32max" else "limit-n"])
     | _, _, _ => (s, "bad-op")
   | ["reset", "direct", ms, mn, lim, is, inn] =>
     match parseDur? ms mn, parseLimit? lim, parseDur? is inn with
     | some m, some l, some i =>
       let b := init { maxSleep := m, limit := l, initial := i }
-      (b, "ok " ++ showState b)
+      (b, tagged ("ok " ++ showState b) ["reset-direct"])
     | _, _, _ => (s, "bad-op")
-  | ["reset", "default"] => let b := init policyDefault; (b, "ok " ++ showState b)
-  | ["reset", "never"] => let b := init policyNever; (b, "ok " ++ showState b)
+  | ["reset", "default"] => let b := init policyDefault; (b, tagged ("ok " ++ showState b) ["reset-default"])
+  | ["reset", "never"] => let b := init policyNever; (b, tagged ("ok " ++ showState b) ["reset-never"])
+  | ["connect", "-"] =>
+    -- a negative `session_retry_limit` in the client configuration means "no limit": it never gives up
+    (s, tagged "ok gaveup=0" ["connect-unlimited"])
   | ["connect", lim] =>
     -- the harness uses 1 ms initial / 4 ms maximum delays; a case may start with this op
     match lim.toNat? with
@@ -52,24 +89,35 @@ def dstep (s : Backoff) (toks : List String) : Backoff × String :=
       if l < 64 then
         let p : Policy := { maxSleep := Dur.ofMillis 4, limit := some l, initial := Dur.ofMillis 1 }
         match connectAttempts false p (l + 2) (init p) 0 with
-        | some n => (s, s!"ok gaveup=1 attempts={n}")
+        | some n => (s, tagged s!"ok gaveup=1 attempts={n}"
+            [if l = 0 then "connect-limit-0" else if l = 1 then "connect-limit-1" else "connect-limit-n"])
         | none => (s, "ok gaveup=0")
       else (s, "bad-op")
     | none => (s, "bad-op")
   | ["next"] =>
     match next s with
     | (.panic, s') => (s', "panic")
-    | (o, s') => (s', "ok " ++ showOut o ++ " " ++ showState s')
+    | (o, s') => (s', tagged ("ok " ++ showOut o ++ " " ++ showState s') (nextArms s))
   | ["nextn", k] =>
     match k.toNat? with
     | some k =>
       match nextN .fixed s k 0 .done with
       | none => (s, "panic")
-      | some (y, last, s') => (s', s!"ok yielded={y} last={showOut last} " ++ showState s')
+      | some (y, last, s') =>
+        (s', tagged (s!"ok yielded={y} last={showOut last} " ++ showState s')
+          [if k = 0 then "nextn-zero" else if y = 0 then "nextn-all-none" else if y = k then "nextn-all-yield" else "nextn-crosses-limit"])
     | none => (s, "bad-op")
   | ["setcount", c] =>
     match c.toNat? with
-    | some c => if c < U32 then let s' := { s with count := c }; (s', "ok " ++ showState s') else (s, "bad-op")
+    | some c =>
+      if c < U32 then
+        let s' := { s with count := c }
+        (s', tagged ("ok " ++ showState s')
+          [match s.maxRetries with
+           | none => "setcount-unlimited"
+           | some m => if c < m then (if c + 1 = m then "setcount-one-left" else "setcount-below")
+                       else if c = m then "setcount-eq-limit" else "setcount-above"])
+      else (s, "bad-op")
     | none => (s, "bad-op")
   | _ => (s, "bad-op")
 
